@@ -45,6 +45,22 @@ theorem C16_fast_frame_local (G : GenLayer) (cfg : Config) (st : State) (i : Inp
     (step G cfg st i).1.sources = st.sources ∧ Fast.lookup (step G cfg st i).1.table k = Fast.lookup st.table k := by
   exact step_fast_local G cfg st i hk hf hnc k hne
 
+/-- **Single-frame traffic never touches a reassembly record** — whatever it is and whatever it does to the rest of the state: also
+an address claim (which may replace the identity of its source), also an input that is filtered out, rejected or raises.  So
+single-frame messages between the frames of a fast-packet message — claims with changing NAMEs from its source or its destination
+included — are no loss for it (with `C16_fast_frame_local`: nor are frames of other streams) -/
+theorem C16_single_frame_keeps_records (G : GenLayer) (cfg : Config) (st : State) (i : Input)
+    (hk : i.combined = true ∨ G.isFast i.pgn ≠ .fast) :
+    (step G cfg st i).1.table = st.table :=
+  step_table_nonfast G cfg st i hk
+
+/-- … and what a completed fast-packet message does after its last frame (decoding, address-claim handling, filters, dump) changes
+no OTHER stream's record either: after any input, every record other than the input's own stream is what it was -/
+theorem C16_other_records_untouched (G : GenLayer) (cfg : Config) (st : State) (i : Input) (k : Fast.Key)
+    (hne : k ≠ (i.pgn, i.src, i.dst)) :
+    Fast.lookup (step G cfg st i).1.table k = Fast.lookup st.table k :=
+  step_table_other G cfg st i k hne
+
 /-- the inputs that carry the frames of one fast-packet message, in order -/
 def framesInputs (pgn prio src dst : Nat) (w : Bool) (frames : List (List Nat)) : List Input :=
   frames.map (fun f => { pgn := pgn, prio := prio, src := src, dst := dst, data := f, combined := false, inWindow := w })
